@@ -154,7 +154,7 @@ EARLIER = {"DFXP": [], "MicroDVD": ["</tt>"], "WebVTT": ["</tt>"], "SAMI": ["</t
 OTHER_MARKER_TEXTS = ["WEBVTT", "<sami>", "<SAMI>", "Scenarist_SCC V1.0", "{1}{2}", "{1}{2}hi", "</tt>", "</TT>",
                       "1\n00:00:01,000 --> 00:00:02,000", "a --> b", "x</tt>y", "webvtt", "<sam\u0130"]
 # not markers, but one character away from one: in the domain, must not disturb detection
-NEAR_MARKER_TEXTS = ["</tt", "/tt>", "</t t>", "<tt>", "WEBVT", "EBVTT", "WEB VTT", "<sam", "sami", "< sami", "->", "-- >",
+NEAR_MARKER_TEXTS = ["WebVTT", "webvtt", "Webvtt", "a WebVTT file", "scenarist_scc v1.0", "</tt", "/tt>", "</t t>", "<tt>", "WEBVT", "EBVTT", "WEB VTT", "<sam", "sami", "< sami", "->", "-- >",
                      "Scenarist_SCC V1.", "{1}{", "{1}2}", "</tt\n>"]
 INNER_BREAKS = ["a\nb", "a\n\nb", "a\rb", "a\r\nb", "a\x0bb", "a\x0cb", "a\x85b", "a\u2028b", "a\u2029b", "\nx", "x\n"]
 FIRST_LANGUAGE_ONLY = ("WebVTT", "SCC")
@@ -176,13 +176,13 @@ def literal_other_marker(name, t):
     hits = []
     if name != "DFXP" and "</tt>" in low:
         hits.append("dfxp")
-    if name != "WebVTT" and "webvtt" in low:
+    if name != "WebVTT" and "WEBVTT" in t:          # exact: the WebVTT sniffer does not lower-case
         hits.append("webvtt")
     if name != "SAMI" and "<sami" in low:
         hits.append("sami")
     if name not in ("SRT", "WebVTT") and "-->" in t:
         hits.append("srt")
-    if name != "SCC" and "scenarist_scc" in low:
+    if name != "SCC" and "Scenarist_SCC V1.0" in t:  # exact: the SCC sniffer compares the header line as it is
         hits.append("scc")
     if name != "MicroDVD" and re.search(r"\{\d+\}\{\d+\}", t):
         hits.append("microdvd")
